@@ -148,6 +148,9 @@ func C05(c *Ctx) {
 		KeepGrammar: func(g *gast.Grammar) bool { g.Finalize(); return g.UsesState },
 	}
 	c.ModelCheck(cfg)
+	// state store through the left-recursion runtime (state changes of discarded growth attempts are dropped)
+	c.lrPass(5, c.N(40, 400), CmpState|CmpVal|CmpEnd|CmpOK, []OptSet{{Name: "default"}, {Name: "initstate=4", Init: 4}}, false,
+		func(m *ref.Result) bool { return m.LRGrowths >= 1 && m.KindsEval[gast.StateCode] >= 1 })
 }
 
 // rollbackStrata: a state change (bare, inside an action, inside a label, inside a group) at the
@@ -230,7 +233,7 @@ func C11(c *Ctx) {
 		Profile: p, Grammars: c11Strata(), NGrammars: c.N(110, 1500),
 		FlagSets:  [][]string{{}, {"-optimize-parser"}},
 		InputsPer: c.N(80, 200), ExhaustLimit: c.N(120, 600), ExhaustLen: 6,
-		OptSets: []OptSet{{Name: "default"}, {Name: "norecover", NoRecover: true}, {Name: "file", File: "in.txt"}, {Name: "file-colon", File: "dir:a/b.x:3"}},
+		OptSets: []OptSet{{Name: "default"}, {Name: "norecover", NoRecover: true}, {Name: "file", File: "in.txt"}, {Name: "file-colon", File: "dir:a/b.x:3"}, {Name: "memoize", Memo: true}, {Name: "stats", Stats: true}},
 		Compare: CmpErrs | CmpErrTypes | CmpVal | CmpPanic | CmpOK,
 		NonTrivial: func(m *ref.Result) bool {
 			if m.Panicked {
@@ -324,6 +327,7 @@ func C12(c *Ctx) {
 		Entrypoints: true,
 	}
 	c.ModelCheck(cfg)
+	c.lrPass(12, c.N(40, 400), CmpNoMatch|CmpOK, []OptSet{{Name: "default"}}, false, cfg.NonTrivial)
 }
 
 func c12Strata() []*gast.Grammar {
@@ -420,6 +424,7 @@ func C17(c *Ctx) {
 		},
 	}
 	c.ModelCheck(cfg)
+	c.lrPass(17, c.N(40, 400), CmpVal|CmpEnd|CmpErrs|CmpOK|CmpInput, []OptSet{{Name: "default"}, {Name: "allow", AllowInvalid: true}}, true, cfg.NonTrivial)
 }
 
 func c17Strata() []*gast.Grammar {
